@@ -182,6 +182,21 @@ pub fn ms_a(depth: usize, full: bool) -> SeqSpace {
     SeqSpace::new(if full { "MS-A range arithmetic" } else { "MS-A range arithmetic (sub-alphabet)" }, vec![CLS_A], ms_a_alphabet(full), depth)
 }
 
+/// MS-A depth 3 over a 48-entry alphabet (thorough tier)
+pub fn ms_a_depth3() -> SeqSpace {
+    let mut v = Vec::new();
+    for r in [None, Some((1u64, 1u64)), Some((2, 4)), Some((4, 2))] {
+        for o in [Orig::None, Orig::S(7), Orig::SE(7, 9)] {
+            for c in [None, Some("x.Y")] {
+                for n in ["p", "q"] {
+                    v.push(method(r, c, n, "", o, "m"));
+                }
+            }
+        }
+    }
+    SeqSpace::new("MS-A range arithmetic (48-entry alphabet, depth 3)", vec![CLS_A], v, 3)
+}
+
 pub fn ms_a_wide(depth: usize) -> SeqSpace {
     let mut v = Vec::new();
     for r in [(10, 20), (20, 10), (15, 40), (64, 64)] {
@@ -465,7 +480,7 @@ pub fn ms_e(level: usize) -> ListSpace {
     }
     let c = ms_c();
     for (i, (l, _)) in c.files.iter().enumerate() {
-        if thorough || (level == 1 && i % 10 == 0) || i % 20 == 0 {
+        if (thorough && i % 2 == 0) || (level == 1 && i % 10 == 0) || i % 20 == 0 {
             bases.push(l.clone());
         }
     }
@@ -487,13 +502,13 @@ pub fn ms_e(level: usize) -> ListSpace {
                 let mut f = b.clone();
                 f.insert(pos, Line::Noise(nz));
                 files.push((f.clone(), Term::Lf));
-                if thorough {
+                if thorough && b.len() <= 3 {
                     files.push((f, Term::CrLf));
                 }
             }
         }
         // one noise line at every position under every other terminator policy (short bases; all bases when thorough)
-        if thorough || b.len() <= 2 {
+        if (thorough && b.len() <= 3) || b.len() <= 2 {
             for pos in 0..=b.len() {
                 for nz in &noise {
                     for t in [Term::CrLf, Term::Cr, Term::LfNoFinal, Term::LfLf] {
